@@ -1221,7 +1221,21 @@ func (fr *frame) conv(t_dst, t_src types.Type, x value) value {
 	case SymInt, SymFloat:
 		if bd, ok := ut_dst.(*types.Basic); ok {
 			if bd.Kind() == types.String {
-				panic(pathAbort{"unsupported", "string(symbolic rune)"})
+				si, ok := xs.(SymInt)
+				if !ok {
+					panic(pathAbort{"unsupported", "string(symbolic float)"})
+				}
+				r := si.T
+				if r.W < 32 {
+					if kindSigned(si.K) {
+						r = Sext(r, 32)
+					} else {
+						r = Zext(r, 32)
+					}
+				} else if r.W > 32 {
+					r = Extract(r, 31, 0)
+				}
+				return mkString(fr.runeSegs(SymInt{r, types.Int32}))
 			}
 			if bd.Info()&types.IsNumeric != 0 {
 				if sf, ok := xs.(SymFloat); ok && bd.Info()&types.IsInteger != 0 {
